@@ -25,6 +25,14 @@ class MachineryError(Exception):
     """Raised for anything that is not a verdict about the code (exit 2)."""
 
 
+class HarnessCrash(MachineryError):
+    """The harness test process died without writing result.json; .log holds its output."""
+
+    def __init__(self, msg, log=""):
+        super().__init__(msg)
+        self.log = log
+
+
 def log(*a):
     print(*a, file=sys.stderr, flush=True)
 
